@@ -348,7 +348,9 @@ impl GenCfg {
 
 pub fn gen_text(rng: &mut Rng, cfg: &GenCfg, nonempty: bool) -> String {
     loop {
-        let s = match rng.below(6) {
+        // with adjacent text nodes allowed, bracket runs are frequent so that "]]" | ">" straddles
+        // two nodes
+        let s = match if cfg.adjacent_text && rng.chance(1, 2) { 1 } else { rng.below(6) } {
             0 => rng.pick(&[" ", "  ", "\n", "\n  ", "\t", " \n "]).to_string(),
             1 => strings::bracket_string(rng, cfg.text_max),
             _ => {
